@@ -470,8 +470,22 @@ def r10_7(run):
             where = run.where(m, s_.node)
             key0 = "DO|%s|%s" % (c.name, tshow(s_.index[0])[:40])
             if s_.index[0] == FULL:
-                v = strip_fallback(s_.value)
-                uses_outer = any((x[0] == "attr" and x[2] == "outer_diameter_mm") or x == C("outer_diameter_mm") for x in walk(s_.value))
+                # a value that is chosen by `"outer_diameter_mm" in <table>` (a helper with an early return, substituted): what
+                # counts is the arm for tables that have the column; without the column there is nothing the user gave
+                from ..arrnf import norm_cond as _nc
+
+                def present_arm(t):
+                    if not isinstance(t, tuple) or not t:
+                        return t
+                    if t[0] == "ite" and len(t) == 4:
+                        c2, p2 = _nc(t[1], True)
+                        if c2[0] == "cmp" and c2[1] in ("in", "not in") and c2[2] == C("outer_diameter_mm"):
+                            has = p2 if c2[1] == "in" else not p2       # truth of the test when the column is present ...
+                            return present_arm(t[2] if has else t[3])
+                    return tuple(present_arm(x) if isinstance(x, tuple) else x for x in t)
+                val = present_arm(s_.value)
+                v = strip_fallback(val)
+                uses_outer = any((x[0] == "attr" and x[2] == "outer_diameter_mm") or x == C("outer_diameter_mm") for x in walk(val))
                 ok = (not uses_outer and not outer_given) or (uses_outer and not inner_dependent(v))
                 run.ob(key0 + "|given-outer-diameter-kept", ok,
                        "where the user gives outer_diameter_mm, DO of %s rows is that value (the inner diameter enters only as "
